@@ -337,7 +337,48 @@ func cmdCheck(args []string) int {
 			coverQs = append(coverQs, cc.After)
 		}
 	}
+	type blockCov struct {
+		fn    string
+		where string
+		qs    []*Query
+	}
+	var bcs []blockCov
+	for _, r := range results {
+		if len(r.Undecided) > 0 {
+			continue
+		}
+		if len(r.Ctx.callCovers) == 0 && r.Loops == 0 {
+			continue // leaf function without loops: nothing assumed that could contradict
+		}
+		for b, qs := range r.Ctx.blockCovers {
+			where := "-"
+			for _, in := range b.Instrs {
+				if in.Pos().IsValid() {
+					where = r.Ctx.posStr(in.Pos())
+					break
+				}
+			}
+			if where == "-" || b.Comment == "recover" {
+				continue
+			}
+			bcs = append(bcs, blockCov{r.Key, fmt.Sprintf("block %d (%s) at %s", b.Index, b.Comment, where), qs})
+			coverQs = append(coverQs, qs...)
+		}
+	}
 	solveCovers(coverQs, workDir, 16)
+	var unreachable []string
+	for _, bc := range bcs {
+		dead := true
+		for _, q := range bc.qs {
+			if q.Status != "unsat" {
+				dead = false
+			}
+		}
+		if dead {
+			unreachable = append(unreachable, bc.fn+": "+bc.where)
+		}
+	}
+	sort.Strings(unreachable)
 	var befores []*Query
 	for _, cc := range ccs {
 		if cc.After.Status == "unsat" {
@@ -454,6 +495,9 @@ func cmdCheck(args []string) int {
 	for _, f := range vacuous {
 		fmt.Printf("VACUOUS property=%s func=%s (no return point reachable under the stated preconditions)\n", prop, f)
 	}
+	for _, u := range unreachable {
+		fmt.Printf("NOTE unreachable-block property=%s %s (no explored path reaches it under the contracts in force)\n", prop, u)
+	}
 	for _, f := range inconsistent {
 		fmt.Printf("INCONSISTENT-CONTRACT property=%s %s (assuming the callee's postcondition contradicts the state at the call)\n", prop, f)
 		vacuous = append(vacuous, "inconsistent: "+f)
@@ -542,6 +586,7 @@ func cmdCheck(args []string) int {
 			"solver_time_s":            map[string]float64{"sum": round3(solverTime), "max_single_query": round3(maxTime)},
 			"cover_queries":            ncover,
 			"vacuous_functions":        vacuous,
+			"unreachable_blocks":       unreachable,
 			"undecided":                undecided,
 			"missing_obligations":      missing,
 			"obligation_list":          reports,
